@@ -201,6 +201,47 @@ func c15Run(w *kernel.Worker, j *c15Job, rep *kernel.Report) (*c15Result, error)
 			}
 		}
 	}
+	// a document sent through an alias belongs to the alias' index: it is counted where a client looks for it — in a
+	// search over that index and in a search over the alias (not wherever the all-indexes search happens to find it)
+	viaAlias := false
+	for _, kind := range j.Kinds {
+		viaAlias = viaAlias || kind == "index-via-alias"
+	}
+	if viaAlias {
+		byIx, err := runQuery(w, Q{Index: ia + "w", Text: `hist="` + hist + `"`, Start: T0 - 1, End: T0 + 1000, Size: 1000})
+		if err != nil {
+			return died(err)
+		}
+		byAl, err := runQuery(w, Q{Index: ia + "al", Text: `hist="` + hist + `"`, Start: T0 - 1, End: T0 + 1000, Size: 1000})
+		if err != nil {
+			return died(err)
+		}
+		cnt := func(r *QRes, id string) int {
+			n := 0
+			for _, rec := range r.Records {
+				if x, _ := rec["id"].(string); x == id {
+					n++
+				}
+			}
+			return n
+		}
+		for k, kind := range j.Kinds {
+			if kind != "index-via-alias" {
+				continue
+			}
+			id := fmt.Sprintf("d%d", k)
+			a, b := cnt(byIx, id), cnt(byAl, id)
+			if a != b || a != stored[id] {
+				// judged below through stored[id]: the smallest of the three views decides
+				if a < stored[id] {
+					stored[id] = a
+				}
+				if b < stored[id] {
+					stored[id] = b
+				}
+			}
+		}
+	}
 	// (1) one item per action, in request order
 	if len(br.Resp.Items) != len(j.Kinds) {
 		last := j.Kinds[len(j.Kinds)-1]
@@ -327,7 +368,7 @@ func c15Enumerate(tier string, emit func(c15Job)) {
 
 func C15() int {
 	rep := kernel.NewReport("C15", "exploration")
-	rep.Rule = "all bulk bodies of ≤ depth action groups over a 14-kind alphabet (valid index/create on two indexes, a rejected index name, a document with no field besides its timestamp, invalid and truncated " +
+	rep.Rule = "all bulk bodies of ≤ depth action groups over a 15-kind alphabet (valid index/create on two indexes, a document addressed through an alias of an index that has received nothing yet - looked for over the index and over the alias -, a rejected index name, a document with no field besides its timestamp, invalid and truncated " +
 		"documents, document at and just under the record size limit, unknown action, delete, update, missing _index, index without " +
 		"document line as last group) × trailing newline present/absent; executed through HandleBulkBody, flushed, searched by a per-history " +
 		"marker. Splunk HEC bodies (a series of JSON objects, acknowledged as a whole): all series of ≤ depth pieces over {event for index a, event for index b, stray }, stray ], truncated " +
